@@ -35,7 +35,8 @@ def pairs(raw):
 def run(ctx):
     prove(ctx, DEPS)
     n = 25 if ctx.quick() else 800
-    cases = ic.gen_line_curve(ctx, n) + [c for c in ic.gen_planted(ctx, n) if len(c["c1"][0]) <= 7 and len(c["c2"][0]) <= 7]
+    cases = (ic.gen_line_curve(ctx, n) + ic.gen_curve_curve(ctx, 30 if ctx.quick() else 800)
+             + [c for c in ic.gen_planted(ctx, n) if len(c["c1"][0]) <= 7 and len(c["c2"][0]) <= 7])
     stats = {"cases": len(cases), "presentations": 0, "failures": 0, "unclaimed": 0,
              "kind": "metamorphic support sweep: 8 re-presentations per pair, results relabelled back and compared"}
     for cfg in ("pure", "speedup"):
@@ -87,6 +88,6 @@ def run(ctx):
                   "swapping two segments swaps their parameters, the box classification is symmetric. NOT PROVED: that the CONVERGED "
                   "answers of the subdivision/Newton pipeline coincide across presentations (three asymmetries in the code: the 2^-10 "
                   "flip in full_newton, first/second handling when one side is linearized, the absolute 2^-26 linearization threshold): "
-                  "metamorphic sweep over Sturm-certified and planted pairs, 8 presentations, both configurations",
+                  "metamorphic sweep over Sturm-certified line-curve pairs, resultant-certified curve-curve pairs (random, lattice, touching end points, planted) and planted pairs, 8 presentations, both configurations",
                   unproved=["equivariance of the converged answers (support sweep)", "splitting a curve yields the rescaled union (not swept)",
                             "triangle-triangle presentations (not swept)"])
